@@ -279,9 +279,42 @@ let pyrw_mode () =
      done with End_of_file -> ());
   flush stdout
 
+(* --match: parse with the Coq parser model, then evaluate the extracted executable matcher
+   (Engine/Exec.v, proved equivalent to the matching relation) on each haystack.
+   line: pattern cps TAB haystack cps ; haystack cps ; ...   *)
+let eng_tabs : (char * (int * int) array) list ref = ref []
+let cls_b (l : cp) (x : cp) : bool =
+  match List.assoc_opt (Char.chr (int_of_n l)) !eng_tabs with
+  | Some a -> in_table a (int_of_n x)
+  | None -> false
+let match_mode dir =
+  eng_tabs := List.map (fun c -> (c, load_ranges (Filename.concat dir (Printf.sprintf "engine_%s%c.txt" (if Char.uppercase_ascii c = c then "neg_" else "") (Char.lowercase_ascii c))))) ['d'; 'w'; 's'; 'D'; 'W'; 'S'];
+  ws_table := load_ranges (Filename.concat dir "std_ws.txt");
+  (try while true do
+       let l = input_line stdin in
+       (match String.split_on_char '\t' l with
+        | [pf; hf] ->
+            let p = str_of_field pf in
+            let hs = List.map str_of_field (String.split_on_char ';' hf) in
+            (match parse is_ws p with
+             | None -> print_endline "NONE"
+             | Some (fl, r) ->
+                 if fl.fl_i then print_endline "CI"
+                 else
+                   print_endline (String.concat ";" (List.map (fun h ->
+                     let full = matches_whole_cs cls_b h r in
+                     let fnd = (match find_leftmost_cs cls_b h r with
+                                | None -> "-"
+                                | Some (i, js) -> Printf.sprintf "%d:%s" (int_of_nat i) (String.concat "," (List.map (fun j -> string_of_int (int_of_nat j)) js))) in
+                     Printf.sprintf "%s/%s" (if full then "1" else "0") fnd) hs)))
+        | _ -> print_endline "BAD")
+     done with End_of_file -> ());
+  flush stdout
+
 let () =
   if Array.length Sys.argv > 1 && Sys.argv.(1) = "--lines" then (lines_mode (); exit 0);
   if Array.length Sys.argv > 1 && Sys.argv.(1) = "--pyrw" then (pyrw_mode (); exit 0);
+  if Array.length Sys.argv > 2 && Sys.argv.(1) = "--match" then (match_mode Sys.argv.(2); exit 0);
   if Array.length Sys.argv > 2 && Sys.argv.(1) = "--ast" then (ws_table := load_ranges Sys.argv.(2); ast_mode (); exit 0);
   engine_d := load_ranges Sys.argv.(1);
   (try while true do
